@@ -513,7 +513,7 @@ class Executor:
             return Adt(segs[-2], last, vals, names)
         if last in self.src.structs and kind != 'unit':
             return Adt(last, None, vals, names)
-        e = self.src.enum_of_variant(last)
+        e = self.src.enum_of_variant(last) if len(segs) == 1 else None      # trimmed variant paths (`Nil`) only
         if e is not None and last not in self.src.structs:
             return Adt(e, last, vals, names)
         return Adt(last, None, vals, names)
